@@ -16,7 +16,7 @@ CLAIMS = {
    text="TryFrom/From/Default of every catalogue declaration decided for all inputs, bounds and default values: equal to try_new/new and to the reference; invalid defaults: default() returns on no path (should_panic harness + unreachable marker).",
    note="Same trusted base as C01; From+TryFrom cannot be derived together so they are checked on twin declarations."),
  "C04": dict(design="§2 C04",
-   text="Generated Deserialize (visitor, visit_newtype_struct, try_new/new, map_err) decided against a data-model-level stub Deserializer: one harness per (declaration, event kind), all payload values, differential oracle = inner type's own Deserialize + reference predicate; nested positions Option/[N;2]/(N,)/struct field.",
+   text="Generated Deserialize (visitor, visit_newtype_struct, try_new/new, map_err) decided against a data-model-level stub Deserializer: one harness per (declaration, event kind), all payload values, differential oracle = inner type's own Deserialize + reference predicate; nested positions Option/[N;2]/(N,)/struct field; plus two other deserializer behaviours (newtype struct presented as a one-element sequence; RON-like explicit options).",
    note="Stub models how serde_json, ron and rmp-serde drive newtype structs (deserialize_newtype_struct -> visit_newtype_struct(self)); byte-level parsers of the formats are trusted. Event KIND is concrete per harness (a symbolic kind does not finish); 128-bit events only for 128-bit targets."),
  "C06": dict(design="§2 C06",
    text="Integers: real core::num parser on ALL ASCII byte strings of length <= 4 (quick) / 5 (thorough), oracle inner.parse() + reference. Floats and other/generic inner types: the inner FromStr is a nondeterministic stub (any value incl. NaN/inf/-0 or any error) that records the text it is handed, so the composition parse->constructor->Parse/Validate is decided for every parse outcome.",
@@ -28,8 +28,8 @@ CLAIMS = {
    text="PARTIAL: the macro's validation layer (trait admissibility tables of the 4 families, From-xor-TryFrom, numeric bound consistency, duplicates, len_char_min/max, lowercase+uppercase, inner-field visibility) is called directly (mirror crate #[path]-including /repo/nutype_macros/src) with symbolic configurations and literal values, against an independent reference table. The parse layer (token streams) and the generated #[test]s are NOT covered.",
    note="Rejection is observed by stubbing syn::Error::new. Needs the cfg(nutype_verif) hooks. A change confined to the parse layer (attribute grammar, with/error pairing, feature gates, foreign attributes) is not detected."),
  "C09": dict(design="§2 C09",
-   text="Integers: generated Arbitrary + real arbitrary::Unstructured::int_in_range decided for ALL byte buffers (<= min(2n, n+2) bytes incl. empty) and ALL bounds (64/128-bit: valid range <= 2^16) - no panic, value valid. Floats: all buffers <= 2n bytes; one-sided bounds symbolic in the benign region |b|<=16, two-sided bounds from a catalogue of concrete pairs; other/generic: inner arbitrary + new. Five genuine float defects are recorded as known findings with region-restricted twin harnesses.",
-   note="String Arbitrary is not covered yet (heap String of symbolic length). Float bound values outside the benign region and outside the known-finding regions are not explored. Quick tier assumes the first drawn float passes the NaN/inf re-draw condition (thorough runs the 1000-step mangling loop as best effort)."),
+   text="Integers: generated Arbitrary + real arbitrary::Unstructured::int_in_range decided for ALL byte buffers (<= min(2n, n+2) bytes incl. empty) and ALL bounds (64/128-bit: valid range <= 2^16) - no panic, value valid. Floats: all buffers <= 2n bytes; one-sided bounds symbolic in the benign region |b|<=16, two-sided bounds from a catalogue of concrete pairs; other/generic: inner arbitrary + new. plus harnesses whose first drawn float is a concrete non-finite pattern; other/generic: inner arbitrary + new. String Arbitrary in a restricted form: declarations with a constant target length (len_char_min == len_char_max, or not_empty + len_char_max = 1), byte streams of 4-byte words encoding ASCII characters (concrete whitespace, symbolic fillers), String::push stubbed by a one-byte ASCII model. Five genuine float defects are recorded as known findings with region-restricted twin harnesses.",
+   note="String Arbitrary with a symbolic target length (e.g. not_empty alone) or non-ASCII draws is NOT covered; streams whose intermediate text becomes empty are best effort (CBMC heap-model artefacts on empty Strings). Float bound values outside the benign region and outside the known-finding regions are not explored. The 1000-step NaN/inf mangling loop is only run on concrete first draws (quick) / as best effort (thorough)."),
  "C10": dict(design="§2 C10",
    text="Recording Serializer: for ALL obtainable values, serialize() is exactly one serialize_newtype_struct(<declared name>, &inner) around the inner value's own event; the recorded event fed to the C04 stub Deserializer yields the same stored bits. Numeric families, struct/Option/tuple inner types, generic newtype name.",
    note="'Byte-identical in JSON/MessagePack' follows from those formats' documented newtype handling (trusted); real encoders/decoders not executed."),
@@ -37,7 +37,7 @@ CLAIMS = {
    text="Numeric: for ALL obtainable values (idempotent symbolic sanitizer) re-entering through try_new, TryFrom and Deserialize(stub event) reproduces the stored bits. Strings: every order of {trim, lowercase|uppercase} x validator sets on skeleton inputs; canonicity as a one-step invariant: from ANY obtainable value (the image of the sanitizer chain, established by a first-pass harness) each of try_new/new, TryFrom/From<&str>, FromStr, Deserialize accepts it and stores the same text - which covers chains of any length.",
    note="Idempotence over the rest of Unicode (final sigma, dotted capital I, ligatures, the full White_Space set) is a statement about core::unicode tables and is not encodable within reach. -Z stubbing models of trim/to_lowercase/to_uppercase are exact on the harness alphabet and validated natively before every run. Numeric Display->FromStr chains are not executed."),
  "C12": dict(design="§2 C12",
-   text="finite float newtypes: for ALL triples of bit patterns and ALL non-NaN bounds, obtainable values are finite, == reflexive, cmp antisymmetric/transitive, agrees with partial_cmp of the inner floats and with ==, never panics; NaN/inf unobtainable through try_new, TryFrom, Default (symbolic default) and Deserialize (stub events).",
+   text="finite float newtypes: for ALL triples of bit patterns and ALL non-NaN bounds, obtainable values are finite, == reflexive, cmp antisymmetric/transitive, agrees with partial_cmp of the inner floats and with ==, never panics; NaN/inf unobtainable through try_new, TryFrom, Default (symbolic default) and Deserialize (stub events, incl. the sequence presentation); const_fn declarations included.",
    note="FromStr and Arbitrary entry points for finite declarations are decided in C06 / C09. slice::sort not executed."),
  "C13": dict(design="§2 C13",
    text="For ALL pairs of obtainable values: AsRef/Deref/Borrow/Into/Clone/Copy expose the stored value; ==, partial_cmp, cmp equal the inner ones; Hash feeds a recording Hasher the same call sequence as the inner value and as the Borrow'ed form; Display hands the caller's Formatter (width/precision/flags) and the value to the inner Display (recording inner type); IntoIterator by value/by ref.",
@@ -46,7 +46,7 @@ CLAIMS = {
    text="forall-exists via Skolem witness: for ALL bounds (valid range <= 2^16 elements for >16-bit types) and ALL targets t in the valid range, arbitrary() on the witness bytes (big-endian t-min in the k bytes int_in_range consumes) returns t. Expression spellings with low-precedence operators included. Natively the replay confirms by exhaustive enumeration that NO input yields t.",
    note="Witness encodes arbitrary 1.3.2's byte order (version pinned by /repo/Cargo.lock)."),
  "C16": dict(design="§2 C16",
-   text="Native step prints to_string() of every bound-violation variant of a literal-bound catalogue (and the serde/FromStr embeddings, compared verbatim); a fixed phrase table parses (type name, relation, bound); per variant CBMC decides for ALL values (all lengths 0..N+2 for strings) that the stated relation holds exactly for the accepted values.",
+   text="Native step prints to_string() of every bound-violation variant of a literal-bound catalogue (and the serde/FromStr embeddings, compared verbatim); a fixed phrase table parses (type name, relation, bound); per variant CBMC decides for ALL values (all lengths 0..N+2 for strings) that the stated relation holds exactly for the accepted values; two-bound declarations: whichever variant is returned, its message never describes an admitted value as forbidden.",
    note="The phrase table is part of the claim. Expression-valued bounds' formatting is outside reach. One wording defect (float less_or_equal) is a known finding pinned by the existing test suite."),
 }
 NA = {
